@@ -9,87 +9,7 @@ import sys
 import time
 
 from props import PROPS, ORDER
-
-REPO = "/repo"
-
-
-def log(*a):
-    print(*a, file=sys.stderr, flush=True)
-
-
-class Ctx:
-    def __init__(self, here):
-        self.here = here
-        self.harness = os.path.join(here, "harness")
-        self.target = os.path.join(self.harness, "target")
-        self.evidence = os.path.join(here, "evidence")
-        self.replays = os.path.join(here, "replays")
-        self.work = os.path.join(self.target, "work")
-        self.env = dict(os.environ)
-        self.env["CARGO_NET_OFFLINE"] = "true"
-        self.env.setdefault("CARGO_TERM_COLOR", "never")
-        # a sanitizer/RUSTFLAGS setting inherited from the caller must not leak into normal builds
-        for k in ("RUSTFLAGS", "CARGO_ENCODED_RUSTFLAGS", "MIRIFLAGS", "CARGO_BUILD_TARGET", "CARGO_TARGET_DIR"):
-            self.env.pop(k, None)
-
-
-# ---------------------------------------------------------------------------------------------
-# building
-
-_built = set()
-
-
-def cargo_build(ctx, packages, profile, extra_env=None, extra_args=None, toolchain=None, timeout=1800):
-    """Returns (ok, output)."""
-    key = (tuple(sorted(packages)), profile, json.dumps(extra_env, sort_keys=True), tuple(extra_args or ()), toolchain)
-    if key in _built:
-        return True, ""
-    cmd = ["cargo"]
-    if toolchain:
-        cmd.append("+" + toolchain)
-    cmd += ["build", "--offline"]
-    if profile == "release":
-        cmd.append("--release")
-    for p in packages:
-        cmd += ["-p", p]
-    cmd += list(extra_args or ())
-    env = dict(ctx.env)
-    env.update(extra_env or {})
-    t0 = time.time()
-    try:
-        r = subprocess.run(cmd, cwd=ctx.harness, env=env, stdout=subprocess.PIPE, stderr=subprocess.STDOUT,
-                           text=True, timeout=timeout)
-    except subprocess.TimeoutExpired as e:
-        return False, "cargo build timed out after %ds\n%s" % (timeout, (e.stdout or ""))
-    log("[build] %s profile=%s rc=%d %.1fs" % (" ".join(packages), profile, r.returncode, time.time() - t0))
-    if r.returncode == 0:
-        _built.add(key)
-    return r.returncode == 0, r.stdout
-
-
-def engine_path(ctx, engine, profile):
-    return os.path.join(ctx.target, "release" if profile == "release" else "debug", engine)
-
-
-# ---------------------------------------------------------------------------------------------
-# running
-
-def run_watchdog(cmd, cwd, env, timeout, stdout_path=None):
-    """Runs cmd in its own process group; returns (rc or None on timeout, stdout+stderr text, wall)."""
-    t0 = time.time()
-    p = subprocess.Popen(cmd, cwd=cwd, env=env, stdout=subprocess.PIPE, stderr=subprocess.STDOUT, text=True,
-                         start_new_session=True, errors="replace")
-    try:
-        out, _ = p.communicate(timeout=timeout)
-        rc = p.returncode
-    except subprocess.TimeoutExpired:
-        try:
-            os.killpg(p.pid, signal.SIGKILL)
-        except ProcessLookupError:
-            pass
-        out, _ = p.communicate()
-        rc = None
-    return rc, out, time.time() - t0
+from util import Ctx, cargo_build, engine_path, log, run_watchdog  # noqa: F401
 
 
 def run_engine(ctx, run, tier, seed, extra_args=None, label=None):
@@ -331,6 +251,7 @@ def check_property(ctx, pid, tier, seed):
 def replay(ctx, pid, path):
     spec = PROPS[pid]
     rec = json.load(open(path))
+    rec["_path"] = path
     if "replay" in spec:
         return spec["replay"](ctx, spec, rec, run_engine)
     if not rec.get("engine"):
